@@ -4,8 +4,10 @@
 // `rime_deployer` tool does), so a kill (`_exit` at the k-th crash point, or the LD_PRELOAD
 // file-system interposer harness/killpoint_interposer.c) takes the whole deployment down.
 //
-//   c12_harness deploy  <shared> <user>            env VERIF_NOW=<t>  VERIF_KILL_CP=<k>  VERIF_CP_TRACE=1
+//   c12_harness deploy  <shared> <user>            env VERIF_NOW=<t>  VERIF_KILL_CP=<k>  VERIF_CP_TRACE=1  VERIF_TASKS=<t,...>
 //   c12_harness dump    <shared> <user>
+//   c12_harness customize <source file> <dest file> <version key>
+//   c12_harness cycle   <shared> <user> <schema> <input>...   sessions, deployment, sessions — all in this process
 //   c12_harness session <shared> <user> <schema> <input>...
 //
 // Output line protocol (stdout):
@@ -42,6 +44,7 @@
 #include <rime/dict/table.h>
 #include <rime/dict/vocabulary.h>
 #include <rime/lever/deployment_tasks.h>
+#include <rime/lever/customizer.h>
 #if __has_include(<rime/verif_hooks.h>)
 #include <rime/verif_hooks.h>
 #endif
@@ -122,10 +125,33 @@ static int cmd_deploy(const std::string& shared, const std::string& user) {
     printf("detect %d\n", d ? 1 : 0);
     fflush(stdout);
   }
-  // the full deployment (RimeDeployWorkspace): each task, stop at the first failure like the API does
+  // the full deployment (RimeDeployWorkspace): each task, stop at the first failure like the API does.
+  // VERIF_TASKS=<t1,t2,...> runs other registered tasks instead (`prebuild_all_schemas`, what RimePrebuildAllSchemas
+  // runs); `compile:<file>` stands for what `rime_deployer --compile <file>` does: SchemaUpdate with set_verbose(true).
   bool ok = true;
-  for (const char* t : {"installation_update", "workspace_update", "user_dict_upgrade", "cleanup_trash"}) {
-    bool r = deployer.RunTask(t);
+  std::vector<std::string> tasks = {"installation_update", "workspace_update", "user_dict_upgrade", "cleanup_trash"};
+  if (const char* e = getenv("VERIF_TASKS")) {
+    tasks.clear();
+    std::stringstream ss(e);
+    std::string t;
+    while (std::getline(ss, t, ',')) tasks.push_back(t);
+  }
+  for (const std::string& ts : tasks) {
+    const char* t = ts.c_str();
+    bool r;
+    if (ts.rfind("compile:", 0) == 0) {
+      SchemaUpdate update{path(ts.substr(8))};
+      update.set_verbose(true);
+      r = update.Run(&deployer);
+    } else if (ts.rfind("schema_update:", 0) == 0) {  // RimeDeploySchema
+      r = deployer.RunTask("schema_update", path(ts.substr(14)));
+    } else if (ts.rfind("config_file_update:", 0) == 0) {  // RimeDeployConfigFile  <file>:<version key>
+      std::string a = ts.substr(19);
+      size_t k = a.find(':');
+      r = deployer.RunTask("config_file_update", std::make_pair(a.substr(0, k), k == std::string::npos ? std::string() : a.substr(k + 1)));
+    } else {
+      r = deployer.RunTask(t);
+    }
     printf("task %s %d\n", t, r ? 1 : 0);
     fflush(stdout);
     if (!r) {
@@ -328,7 +354,13 @@ static int cmd_dump(const std::string& shared, const std::string& user) {
   if (fs::exists(build))
     for (auto& e : fs::directory_iterator(build))
       if (e.is_regular_file()) files.push_back(e.path());
-  std::sort(files.begin(), files.end());
+  // what the deployed-resource resolver falls back to: a file of the prebuilt directory <shared>/build is in use
+  // when the staging directory has no file of that name
+  fs::path prebuilt = fs::path(shared) / "build";
+  if (fs::exists(prebuilt))
+    for (auto& e : fs::directory_iterator(prebuilt))
+      if (e.is_regular_file() && !fs::exists(build / e.path().filename())) files.push_back(e.path());
+  std::sort(files.begin(), files.end(), [](const fs::path& a, const fs::path& b) { return a.filename() < b.filename(); });
   for (auto& f : files) {
     std::string n = f.filename().string();
     if (ends_with(n, ".table.bin"))
@@ -392,6 +424,62 @@ static int cmd_session(const std::string& shared, const std::string& user, int a
   return 0;
 }
 
+// ---------------------------------------------------------------- one process: sessions, a deployment, sessions again
+// c12_harness cycle <shared> <user> <schema> <inputs> ...      env VERIF_NOW
+// What a running input method does when the user asks for a deployment: sessions are open (phase 1, kept open), the full
+// deployment runs in the same process (start_maintenance(True) + join), new sessions are opened (phase 2).
+//   cand1 <schema> <input> <hex>   /   maintenance <0|1>   /   cand2 <schema> <input> <hex>
+static void transcript(RimeApi* api, const char* tag, int argc, char** argv, std::vector<RimeSessionId>* keep) {
+  for (int i = 0; i + 1 < argc; i += 2) {
+    std::string schema = argv[i], inputs = argv[i + 1];
+    RimeSessionId s = api->create_session();
+    if (!s) {
+      printf("%s %s - no-session\n", tag, schema.c_str());
+      continue;
+    }
+    keep->push_back(s);
+    if (!api->select_schema(s, schema.c_str())) {
+      printf("%s %s - no-schema\n", tag, schema.c_str());
+      continue;
+    }
+    std::stringstream ss(inputs);
+    std::string input;
+    while (std::getline(ss, input, ',')) {
+      api->clear_composition(s);
+      api->simulate_key_sequence(s, input.c_str());
+      RIME_STRUCT(RimeContext, ctx);
+      std::string out;
+      if (api->get_context(s, &ctx)) {
+        for (int k = 0; k < ctx.menu.num_candidates; ++k) {
+          if (k) out += "|";
+          out += ctx.menu.candidates[k].text;
+          if (ctx.menu.candidates[k].comment) out += std::string("~") + ctx.menu.candidates[k].comment;
+        }
+        out += std::string("//") + (ctx.composition.preedit ? ctx.composition.preedit : "");
+        api->free_context(&ctx);
+      }
+      api->clear_composition(s);
+      printf("%s %s %s %s\n", tag, schema.c_str(), input.c_str(), vh::hex(out).c_str());
+    }
+    fflush(stdout);
+  }
+}
+
+static int cmd_cycle(const std::string& shared, const std::string& user, int argc, char** argv) {
+  if (const char* e = getenv("VERIF_NOW")) g_now = atol(e);
+  RimeApi* api = vh::start(shared, user, false);
+  std::vector<RimeSessionId> open_sessions;
+  transcript(api, "cand1", argc, argv, &open_sessions);
+  Bool started = api->start_maintenance(True);
+  if (started) api->join_maintenance_thread();
+  printf("maintenance %d\n", started ? 1 : 0);
+  fflush(stdout);
+  transcript(api, "cand2", argc, argv, &open_sessions);
+  for (auto s : open_sessions) api->destroy_session(s);
+  api->finalize();
+  return 0;
+}
+
 int main(int argc, char** argv) {
   if (argc < 4) {
     fprintf(stderr, "usage: c12_harness deploy|dump|session <shared> <user> ...\n");
@@ -400,8 +488,16 @@ int main(int argc, char** argv) {
   std::string cmd = argv[1], shared = argv[2], user = argv[3];
   FLAGS_minloglevel = 3;
   FLAGS_logtostderr = false;
+  if (cmd == "customize") {
+    // c12_harness customize <source file> <dest file> <version key>: the old way a *.custom.yaml reaches a config
+    if (argc < 5) return 2;
+    Customizer customizer{path(shared), path(user), argv[4]};
+    printf("customize %d\n", customizer.UpdateConfigFile() ? 1 : 0);
+    return 0;
+  }
   if (cmd == "deploy") return cmd_deploy(shared, user);
   if (cmd == "dump") return cmd_dump(shared, user);
   if (cmd == "session") return cmd_session(shared, user, argc - 4, argv + 4);
+  if (cmd == "cycle") return cmd_cycle(shared, user, argc - 4, argv + 4);
   return 2;
 }
